@@ -251,6 +251,15 @@ func c17Ops() []c17Op {
 					}
 				}
 				_ = d.UseCases()
+				_ = d.DestinationData()
+				_ = d.Address()
+				_ = d.DeviceType()
+				_ = d.FeatureSet()
+				for _, e := range d.Entities() {
+					_ = e.Description()
+					_ = e.EntityType()
+					_ = e.Address()
+				}
 				_ = c.w.L.SubscriptionManager().Subscriptions(d)
 				_ = c.w.L.BindingManager().Bindings(d)
 			}
@@ -261,7 +270,10 @@ func c17Ops() []c17Op {
 					_ = f.Description()
 				}
 				_ = e.Information()
+				_ = e.Description()
 			}
+			_ = c.w.L.DestinationData()
+			_ = c.w.L.Information()
 			_ = c.srv.DataCopy(fnLimit)
 			_ = c.w.L.RemoteDeviceForSki("B")
 		}},
